@@ -5,8 +5,8 @@
   model type, final indices), tied to `Analyser::analyseModel` by engine `analyse` on abstract systems extracted
   from CellML text (`pygen/absys.py`), for generated systems and their under- or over-constrained variants.
   The order / renaming independence of the classification is checked on the implementation (all generated systems
-  under permutations of components, variables, equations, connections and consistent renaming); it is stated
-  below (`OrderIndependent`) but not proved for the model.
+  under permutations of components, variables, equations, connections and consistent renaming); the full statement
+  (`OrderIndependent`) is refuted for the model by a concrete witness (`not_orderIndependent`), a known finding.
 -/
 import Cellml.Analyser.Proofs
 namespace Cellml.Props.C05
@@ -101,6 +101,23 @@ def OrderIndependent : Prop :=
   ∀ (vs : List V) (es es' : List E), es.Perm es' →
     (analyse { vars := vs, eqs := es }).vars.map (·.ty) = (analyse { vars := vs, eqs := es' }).vars.map (·.ty)
       ∧ modelType (analyse { vars := vs, eqs := es }) = modelType (analyse { vars := vs, eqs := es' })
+
+/-! The full statement is FALSE of the model (and of the implementation, which the model is tied to): with `x` initialised,
+    `h = x + sin x` listed before `h = 5` claims `h` (and `h = 5` then over-constrains it), listed after it becomes an NLA
+    equation for `x`.  The witness is replayed on the real analyser by `checks/C05.py` (known finding
+    C05-order-initialised-unknown). -/
+def wV : List V := [⟨.unknown, none, false, 0⟩, ⟨.initialised, none, false, 0⟩]
+def wE1 : E := { comp := 0, vars := [0, 1], odes := [], all := [0, 1], lhs := some (0, false), rhs := none }
+def wE2 : E := { comp := 0, vars := [0], odes := [], all := [0], lhs := some (0, false), rhs := none }
+
+theorem witness_types : modelType (analyse { vars := wV, eqs := [wE1, wE2] }) = .overconstrained
+    ∧ modelType (analyse { vars := wV, eqs := [wE2, wE1] }) = .nla := by decide
+
+theorem not_orderIndependent : ¬ OrderIndependent := by
+  intro h
+  have h2 := (h wV [wE1, wE2] [wE2, wE1] (List.Perm.swap _ _ _)).2
+  rw [witness_types.1, witness_types.2] at h2
+  cases h2
 
 /-! non-vacuity: x' = -x with x(0) = 1 (classes: 0 = t, 1 = x) and y = 2 x -/
 def sample : St :=
